@@ -185,7 +185,7 @@ def verify_boundary(args):
     out = dict(k=rec['k'], loadDiff=[], step1Diff=[], step2Diff=[], dupCalls=0, error=None)
     s = None
     try:
-        with warnings.catch_warnings(), common.cpu_limit(300):
+        with warnings.catch_warnings(), common.cpu_limit(90):
             warnings.simplefilter('ignore')
             s = make(cfg, model, path, resume=True)
             out['loadDiff'] = groups(diff(rec['parts'], parts(s)), rec['wshell'])
